@@ -11,6 +11,11 @@ CHECKS = {
         text="Exploration: randomly generated well-typed expressions (all 12 numeric kinds, strings, collections, structs, nil-safe chains, nested closures, logging calls) over generated environment values are compiled (typed / untyped / Eval, optimiser on and off) and compared with an independently written big-step reference evaluator on value, failure and environment-call log. Finds wrong code generation for shapes and values the example table lacks; does not prove absence.",
         note="Trusted: the reference evaluator (harness/core/refeval.go, written from docs/Language-Definition.md and Go semantics), the printer, rapid. Known-finding regions are excluded by construction and counted.",
         ref="4/C01"),
+    "C10": dict(
+        technique="bounded exhaustive enumeration of (parent kind, child slot, child kind) triples + rapid random ast.Node trees against a reflection-based child enumerator; replacement visitors; Patch differential (41->42) end to end",
+        text="Exploration, exhaustive over all single-edge shapes: every node kind in every child slot of every parent kind (optional slots absent/present, lists of length 0-3), each with and without a replacing visitor on Enter and on Exit; random deep trees; parsed and optimised trees of generated programs; and a differential between Compile(src, Patch(41->42)) and Compile(src with 42) with the literal at drawn positions.",
+        note="Trusted: reflection over the exported ast struct fields (declaration order = source order), the harness tree builder; patch-e2e compares the library with itself (no reference model).",
+        ref="4/C10"),
     "C12": dict(
         technique="property-based testing (rapid) with round-trip oracles: write value with drawn spelling -> lex/parse -> same value; writer's own line/column count for positions; native go-fuzz target in the thorough tier",
         text="Exploration: generated strings, integers, floats and token layouts are written in every supported spelling and must lex/parse back to exactly the same value / position. Round-trip and position oracles need no model of the lexer. Bounded by case counts; absence is not established.",
